@@ -25,6 +25,10 @@ type c02Case struct {
 func genC02Read(t *rapid.T, size int64, label string) hx.Req {
 	op := rapid.SampledFrom([]string{"READ_FILE", "READ_FILE", "READ_CRIT"}).Draw(t, label+"-op")
 	off, n := hx.GenReadRange(t, size, label)
+	if off >= 1<<63 {
+		// upper half of the unsigned range: behind the end of every object, nothing is transferred
+		return hx.Req{Op: op, N: n, Off: off}
+	}
 	// bytes actually transferred are min(n, size-off): huge limits are fine against any file,
 	// but keep the transferred amount bounded
 	if int64(off) < size && size-int64(off) > 8<<20 && n > 8<<20 {
